@@ -28,6 +28,10 @@ def eng(engine, profile, q, t, **kw):
 
 PLAN = {
     "C01": {"runs": [eng("fo", "c01", 250, 5000), eng("fo", "c02", 120, 2000)]},
+    "C02": {"runs": [eng("fo", "c02", 300, 6000), eng("fo", "table", 0, 0)]},
+    "C03": {"runs": [eng("fo", "table", 0, 0), eng("fo", "c02", 100, 2000)]},
+    "C05": {"runs": [eng("fo", "c05", 300, 6000), eng("fo", "c01", 100, 2000)]},
+    "C06": {"runs": [eng("fo", "c06", 300, 6000), eng("fo", "table", 0, 0)]},
     "C04": {"runs": [eng("fo", "c04", 250, 5000), eng("fo", "c01", 120, 2000)]},
     "C13": {"runs": [eng("xfer", "c13", 100, 1500)],
             "trusted_extra": ["encoding/gob is modelled as the identity on {K,V,E,C} records decoded into fresh variables"]},
@@ -37,11 +41,11 @@ PLAN = {
     "C17": {"runs": [eng("inval", "c17", 90, 900)]},
     "C07": {"runs": [seq("c07", 240, 6000)],
             "explanation": "refinement of the slot-keyed store to a plain map with per-entry expiry, for every hash function and every op sequence"},
-    "C09": {"runs": [seq("c09", 200, 4000)]},
+    "C09": {"runs": [seq("c09", 200, 4000), eng("fo", "c04", 150, 3000), eng("inval", "c15", 100, 1000)]},
     "C10": {"runs": [seq("c10", 200, 5000)],
             "trusted_extra": ["float64 evaluation of the jitter product is idealised by exact rationals; the correspondence allows |T|*2^-40+1 ns slack"]},
     "C11": {"runs": [seq("c11", 200, 3000)]},
     "C12": {"runs": [seq("c12", 200, 3000)],
             "trusted_extra": ["float64 evaluation of n*frac is idealised by exact rationals; one entry of slack only within 2^-20 of an integer"]},
-    "C18": {"runs": [seq("c07", 150, 3000), seq("c12", 80, 1000)]},
+    "C18": {"runs": [seq("c07", 150, 3000), seq("c12", 80, 1000), eng("fo", "c02", 150, 3000)]},
 }
